@@ -21,7 +21,8 @@ class Interrupt(KeyboardInterrupt):
 
 
 class VFS:
-    def __init__(self, files=None, bufsize=1, crash_at=None, interrupt_at=None):
+    def __init__(self, files=None, bufsize=1, crash_at=None, interrupt_at=None, deny=()):
+        self.deny = set(deny)  # paths that cannot be created (a directory sits there, name too long, no permission, disk full): OSError
         self.files = dict(files or {})  # path -> bytes
         self.bufsize = bufsize
         self.crash_at = crash_at
@@ -45,6 +46,8 @@ class VFS:
     # ---- what parameter_utils sees
     def open(self, path, mode="r", *a, **k):
         if "w" in mode:
+            if path in self.deny:
+                raise OSError(28, "cannot create (injected)", path)
             self._op("create", path)
             self.files[path] = b""
             return _File(self, path)
@@ -53,6 +56,15 @@ class VFS:
             self.files.setdefault(path, b"")
             return _File(self, path)
         raise NotImplementedError(mode)
+
+    # ---- whole-file copies (shutil.copyfile / copy / copy2): the destination is truncated, then written
+    def copyfile(self, src, dst, *a, **k):
+        if src not in self.files:
+            raise FileNotFoundError(2, "No such file or directory", src)
+        data = self.files[src]
+        with self.open(dst, "wb") as f:
+            f.write(data)
+        return dst
 
     # ---- low-level descriptors (os.open / os.fdopen / os.fsync)
     def os_open(self, path, flags, mode=0o777):
@@ -202,10 +214,16 @@ class installed:
 
         import torchtree.core.parameter_utils as pu
 
+        import shutil
+
         self.pu = pu
         self.saved = (pu.__dict__.get("open", None), pu.os)
         pu.open = self.vfs.open
         pu.os = _OS(self.vfs, os)
+        # whoever copies checkpoint files (any module) does so on the virtual disk
+        self.saved_shutil = {n: getattr(shutil, n) for n in ("copyfile", "copy", "copy2")}
+        for n in self.saved_shutil:
+            setattr(shutil, n, self.vfs.copyfile)
         return self.vfs
 
     def __exit__(self, *a):
@@ -214,4 +232,8 @@ class installed:
         else:
             self.pu.open = self.saved[0]
         self.pu.os = self.saved[1]
+        import shutil
+
+        for n, f in self.saved_shutil.items():
+            setattr(shutil, n, f)
         return False
